@@ -43,7 +43,7 @@ func init() {
 		Run: run,
 		Floors: func(t string) map[string]int64 {
 			return map[string]int64{"pt.on_vertex": 1000, "pt.on_closing_segment_of_unclosed_ring": 200, "pt.on_horizontal_edge": 500, "pt.ray_through_vertex": 1000,
-				"pt.inside_two_members": 100, "answer.inside": 1000, "answer.outside": 1000, "answer.onedge": 1000, "recv.outside": 200, "recv.not_outside": 200, "float.judged": 1000, "float.ray_grazes_one_ulp_edge": 1000, "arg.*Bounds": 100}
+				"pt.inside_two_members": 100, "answer.inside": 1000, "answer.outside": 1000, "answer.onedge": 1000, "recv.outside": 200, "recv.not_outside": 200, "float.judged": 1000, "float.ray_grazes_one_ulp_edge": 1000, "float.extreme_scale": 300, "arg.*Bounds": 100}
 		},
 		Exhaustive: func(t string) bool { return false },
 	})
@@ -373,6 +373,58 @@ func runFloat(c *core.Ctx) {
 		}
 		pts = append(pts, p)
 		c.Count("float.judged")
+	}
+	// extreme magnitudes: the same figure multiplied by an exact power of two (lossless, so the
+	// classification computed on the unscaled figure is the truth for the scaled one)
+	if r.Chance(0.2) {
+		k := []int{-600, -560, -530, -400, 400, 480, 515, 600}[r.Intn(8)]
+		f := math.Ldexp(1, k)
+		okScale := true
+		sc := func(p geom.Point) geom.Point {
+			q := geom.Point{X: p.X * f, Y: p.Y * f}
+			if math.IsInf(q.X, 0) || math.IsInf(q.Y, 0) || (p.X != 0 && math.Abs(q.X) < 1e-300) || (p.Y != 0 && math.Abs(q.Y) < 1e-300) {
+				okScale = false
+			}
+			return q
+		}
+		spolys := make([]geom.Polygon, len(polys))
+		for i, pg := range polys {
+			spolys[i] = make(geom.Polygon, len(pg))
+			for j, ring := range pg {
+				spolys[i][j] = make(geom.Path, len(ring))
+				for m, p := range ring {
+					spolys[i][j][m] = sc(p)
+				}
+			}
+		}
+		spts := make([]geom.Point, len(pts))
+		for i, p := range pts {
+			spts[i] = sc(p)
+		}
+		if okScale {
+			c.Count("float.extreme_scale")
+			var spgl geom.Polygonal = spolys[0]
+			if len(spolys) > 1 {
+				spgl = geom.MultiPolygon(spolys)
+			}
+			d2 := map[string]interface{}{"polygonal": gen.Dump(spgl), "scaled_by_2^": k}
+			for i, p := range spts {
+				c.Eval()
+				want := oracle(pts[i], polys) // truth from the unscaled figure
+				var got geom.WithinStatus
+				if c.Guard("Point.Within", d2, func() { got = p.Within(spgl) }) {
+					break
+				}
+				if conv(got) != want {
+					d3 := map[string]interface{}{"point": []float64{p.X, p.Y}, "want": statusName(want), "got": statusName(conv(got))}
+					for kk, v := range d2 {
+						d3[kk] = v
+					}
+					c.Violate(fmt.Sprintf("within:float-extreme-scale:want-%s-got-%s", statusName(want), statusName(conv(got))), fmt.Sprintf("figure scaled by 2^%d: Point.Within = %s, exact oracle says %s", k, statusName(conv(got)), statusName(want)), d3)
+					break
+				}
+			}
+		}
 	}
 	detail := map[string]interface{}{"polygonal": gen.Dump(pgl)}
 	nIn, _ := judgeAll(c, pgl, polys, pts, detail, "float")
